@@ -23,7 +23,7 @@ pub fn gen_strategy(max_len: u32) -> impl Strategy<Value = Gen> {
         3 => 0u32..max_len.max(2),
         2 => near,
     ];
-    (0u8..8, len, any::<u32>()).prop_map(|(pat, len, seed)| Gen { pat, len, seed })
+    (0u8..10, len, any::<u32>()).prop_map(|(pat, len, seed)| Gen { pat, len, seed })
 }
 
 pub struct XRng(pub u64);
@@ -72,7 +72,39 @@ const F_SPECIALS: &[u32] = &[
     0xbf80_0000, // -1
 ];
 
+/// Patterns 8 and 9 are *gated* signals (squelched audio, bursts): stretches of data
+/// separated by stretches of exact zeroes, 1 to ~12 000 samples each.
+pub fn gate_mask(len: usize, seed: u32) -> Vec<bool> {
+    let mut r = XRng::new(seed as u64 ^ 0x6a7e);
+    let mut on = r.below(2) == 0;
+    let mut v = Vec::with_capacity(len);
+    while v.len() < len {
+        let l = match r.below(4) {
+            0 => 1 + r.below(8),
+            1 => 1 + r.below(300),
+            2 => 1 + r.below(3000),
+            _ => 1 + r.below(12000),
+        } as usize;
+        for _ in 0..l.min(len - v.len()) {
+            v.push(on);
+        }
+        on = !on;
+    }
+    v
+}
+
 pub fn gen_f32(g: &Gen, dom: FDom) -> Vec<f32> {
+    if g.pat >= 8 {
+        // gated noise (8) / gated sinusoid (9, 10, ...)
+        let inner = Gen { pat: if g.pat == 8 { 0 } else { 6 }, ..*g };
+        let mut v = gen_f32(&inner, dom);
+        for (x, on) in v.iter_mut().zip(gate_mask(g.len as usize, g.seed | 1)) {
+            if !on {
+                *x = 0.0;
+            }
+        }
+        return v;
+    }
     let mut r = XRng::new(g.seed as u64 ^ 0xf32);
     let n = g.len as usize;
     let scale = match dom {
@@ -115,11 +147,21 @@ pub fn gen_f32(g: &Gen, dom: FDom) -> Vec<f32> {
 pub fn gen_c32(g: &Gen, dom: FDom) -> Vec<Complex> {
     let re = gen_f32(g, dom);
     let g2 = Gen {
-        pat: g.pat.wrapping_add((g.seed >> 8) as u8 % 3),
+        pat: if g.pat >= 8 { g.pat } else { (g.pat + (g.seed >> 8) as u8 % 3) % 8 },
         len: g.len,
         seed: g.seed ^ 0x5555_aaaa,
     };
-    let im = gen_f32(&g2, dom);
+    let mut im = gen_f32(&g2, dom);
+    if g.pat >= 8 {
+        // both components share the gate, so that gaps are exact complex zeroes
+        let inner = Gen { pat: if g.pat == 8 { 0 } else { 6 }, ..g2 };
+        im = gen_f32(&inner, dom);
+        for (x, on) in im.iter_mut().zip(gate_mask(g.len as usize, g.seed | 1)) {
+            if !on {
+                *x = 0.0;
+            }
+        }
+    }
     re.into_iter().zip(im).map(|(a, b)| Complex::new(a, b)).collect()
 }
 
@@ -191,7 +233,7 @@ pub fn gen_pkts_f32(g: &Gen, max_pkts: usize, maxlen: usize, dom: FDom) -> Vec<V
                 _ => r.below(12) as usize,
             };
             let gg = Gen {
-                pat: (g.pat / 4).wrapping_add(i as u8),
+                pat: (g.pat / 4).wrapping_add(i as u8) % 8,
                 len: l as u32,
                 seed: r.next() as u32,
             };
